@@ -60,6 +60,10 @@ struct Recorder {
 impl RepeStruct for Recorder {
     fn repe_handle(&mut self, segments: &[&str], body: Option<Value>) -> Result<Option<Value>, StructError> {
         self.seen.lock().unwrap().push((segments.iter().map(|s| s.to_string()).collect(), body.is_some()));
+        // a struct may refuse a path: the refusal must not leave anything behind for the next request on this thread
+        if segments.iter().any(|s| *s == "deny" || *s == "de/ny") {
+            return Err(StructError::InvalidPath { path: segments.join("/") });
+        }
         Ok(Some(json!({"n": segments.len()})))
     }
 }
@@ -500,15 +504,60 @@ pub fn run(args: &Args) -> Report {
     }
     rep.set("prefix_boundary_pairs", json!(boundary));
 
+    // ---------------- (C2) exact routes whose registered spelling is not canonical (trailing '/', doubled '/', no leading '/'):
+    // a route answers for exactly the path it was registered under, in any registration order relative to a covering mount, and
+    // for no other spelling (those belong to the mount or to nobody)
+    let mut spellings = 0u64;
+    for spelled in ["/x/y/", "/x/", "/x//", "/x/y//z", "x/y", "x", "/s/", "/s/k/"] {
+        for order in 0..2 {
+            let reg = Arc::new(Registry::new());
+            reg.register_value("/y", json!("from-registry")).unwrap();
+            let rec = Arc::new(Mutex::new(vec![]));
+            let route = |r: Router| r.with_json(spelled, |_v| Ok(json!("exact-route")));
+            let mounts = |r: Router| r.with_registry("/x", reg.clone()).with_struct("/s", Recorder { seen: rec.clone() }).0;
+            let router = if order == 0 { mounts(route(Router::new())) } else { route(mounts(Router::new())) };
+            rep.eval();
+            spellings += 1;
+            rep.distinct(&("spelling", spelled, order));
+            let ask = |path: &str| -> Option<String> {
+                let h = router.get(path)?;
+                let req = Message::builder().id(3).query_str(path).query_format(QueryFormat::JsonPointer).body_json(&json!(1)).unwrap().build();
+                let w = req.to_vec();
+                let a = catching(|| h.handle(&req)).ok()?.ok().map(|m| String::from_utf8_lossy(&m.body).to_string());
+                let b = catching(|| h.handle_view(&MessageView::from_slice(&w).unwrap(), &CallContext::detached(path))).ok()?.ok().map(|m| String::from_utf8_lossy(&m.body).to_string());
+                if a != b {
+                    return Some(format!("handle={a:?} handle_view={b:?}"));
+                }
+                a.or(Some("<error response>".into()))
+            };
+            let got = ask(spelled);
+            if got.as_deref() != Some("\"exact-route\"") {
+                rep.violation("C07:exact-route-spelling:not-served-under-its-own-path", format!("route registered as {spelled:?} (registration order {order}: 0=route first, 1=mounts first): a request for exactly {spelled:?} got {got:?}"), json!({"spelled": spelled, "order": order}));
+            }
+            // the canonicalised neighbours are different paths
+            let trimmed = spelled.trim_end_matches('/');
+            let with_slash = if spelled.starts_with('/') { spelled.to_string() } else { format!("/{spelled}") };
+            for other in [trimmed.to_string(), with_slash.trim_end_matches('/').to_string(), with_slash.clone()] {
+                if other == spelled || other.is_empty() {
+                    continue;
+                }
+                if ask(&other).as_deref() == Some("\"exact-route\"") {
+                    rep.violation("C07:exact-route-spelling:served-under-another-path", format!("route registered as {spelled:?} also answered a request for {other:?} (order {order})"), json!({"spelled": spelled, "other": other, "order": order}));
+                }
+            }
+        }
+    }
+    rep.set("exact_route_spellings_checked", json!(spellings));
+
     // ---------------- (D) struct segments
-    const TOK: [&str; 12] = ["a", "b", "", "0", "a/b", "m~n", "~", "/", "~1", "~0", "é", "x y"];
+    const TOK: [&str; 14] = ["a", "b", "", "0", "a/b", "m~n", "~", "/", "~1", "~0", "é", "x y", "deny", "de/ny"];
     let nd = args.budget(40_000, 800_000);
     let mut depth_seen = std::collections::BTreeSet::new();
     for case in 0..nd {
         let mut r = rng.fork(0x40_0000 + case);
         let depth = if case < 41 { case as usize } else { r.usize_below(41) };
         let escape_free = r.coin();
-        let toks: Vec<String> = (0..depth).map(|_| if escape_free { r.pick(&["a", "b", "", "0", "é", "x y"]).to_string() } else { r.pick(&TOK).to_string() }).collect();
+        let toks: Vec<String> = (0..depth).map(|_| if escape_free { r.pick(&["a", "b", "", "0", "é", "x y", "deny"]).to_string() } else { r.pick(&TOK).to_string() }).collect();
         let root = *r.pick(&["/st", "", "/deep/root", "/a", "/é", "/a~1b"]);
         // a third of the cases: leading child tokens that repeat or extend the root's own text (the remainder after the mount
         // prefix must be cut once, at the prefix, whatever the children are called)
